@@ -36,6 +36,8 @@ GFA1 = {
     "h4": ("H\tyy:Z:hello world\tzz:f:1.5", []),
     "h5": ("H\tTS:i:100", []),
     "k1": ("# a comment", []),
+    "k2": ("# padded with blanks  ", []),
+    "t3": ("S\tY\t*\tnt:Z:ends with a blank ", []),            # the last field of a line may end with white space
     "t1": ("S\tD\tACGT\tLN:i:4\tRC:i:12\tab:Z:str\tcd:J:[1, 2]\tef:H:1A2B\tgh:B:c,1,-2\tij:A:x\tkl:f:0.25", []),
 }
 GFA2 = {
@@ -78,6 +80,8 @@ GFA2 = {
     "h3": ("H\txx:i:2", []),
     "h5": ("H\tTS:i:100", []),
     "k1": ("# a comment", []),
+    "k2": ("# padded with blanks  ", []),
+    "t3": ("S\tY\t8\t*\tnt:Z:ends with a blank ", []),
     "t1": ("S\tD\t4\tACGT\tRC:i:12\tab:Z:str\tcd:J:[1, 2]\tef:H:1A2B\tgh:B:c,1,-2\tij:A:x\tkl:f:0.25", []),
 }
 CAT = {"gfa1": GFA1, "gfa2": GFA2}
